@@ -10,7 +10,8 @@
 use std::cell::{Cell, RefCell};
 
 /// One VM dispatch step, observed before the instruction executes.
-pub struct StepEvent {
+pub struct StepEvent<'a> {
+    pub code: &'a [u8], // the instruction stream being executed
     pub frames_index: usize,
     pub func: usize, // identity of the instruction stream being executed
     pub ip: usize,
@@ -46,7 +47,7 @@ pub enum EmitEvent<'a> {
     TopLevelStmt { pos: usize },
 }
 
-type StepFn = Box<dyn FnMut(&StepEvent)>;
+type StepFn = Box<dyn for<'a> FnMut(&StepEvent<'a>)>;
 type EmitFn = Box<dyn FnMut(&EmitEvent)>;
 
 thread_local! {
